@@ -773,6 +773,30 @@ fn probe_tophits_flush(ctx: &mut Ctx) {
     check_request(ctx, &mut rng, &corpus, &nodes, Q::All);
 }
 
+/// hand-written corpus for the lost date flag: terms(min_doc_count 0) > histogram(date field),
+/// the zero-count term of the first segment meets the same term with a date in the second
+fn probe_date_flag(ctx: &mut Ctx) {
+    let mut d0: MDoc = vec![vec![]; NF];
+    d0[Fd::Kw.id()] = vec![1, 9];
+    d0[Fd::Uid.id()] = vec![0];
+    let mut d1: MDoc = vec![vec![]; NF];
+    d1[Fd::Kw.id()] = vec![9];
+    d1[Fd::D.id()] = vec![1_600_000_000_000];
+    d1[Fd::Uid.id()] = vec![1];
+    d1[Fd::Sel.id()] = vec![0];
+    let docs = vec![d0, d1];
+    let nodes = vec![Node { name: "a1".into(), agg: Agg::Terms { field: Fd::Kw, size: None, seg: None, mdc: Some(0), order: None, missing: None },
+        subs: vec![Node { name: "a2".into(), agg: Agg::Hist { field: Fd::D, interval: 60_000, offset: None, mdc: Some(1), hard: None, ext: None, date_hist: false }, subs: vec![], opt: Opt::default() }], opt: Opt::default() }];
+    let parts = vec![vec![0usize], vec![1usize]];
+    let all = vec![0usize, 1];
+    let segs = vec![(vec![all.clone()], build_index(&docs, &[all.clone()])), (parts.clone(), build_index(&docs, &parts))];
+    let idxs = parts.iter().map(|p| build_index(&docs, &[p.clone()])).collect();
+    let corpus = Corpus { docs, segs, split: (parts, idxs) };
+    let mut rng = Rng::new(1);
+    ctx.report.count("probe:date-flag-under-mdc0-terms");
+    check_request(ctx, &mut rng, &corpus, &nodes, Q::Sel(0));
+}
+
 fn gen_query(rng: &mut Rng) -> Q {
     match rng.below(4) { 0 | 1 => Q::All, 2 => Q::Sel(rng.below(3)), _ => Q::Cat(rng.below(5) as i64) }
 }
@@ -825,6 +849,7 @@ pub fn run(ctx: &mut Ctx) {
         }
     }
     probe_tophits_flush(ctx);
+    probe_date_flag(ctx);
     let corpora = ctx.budget(60, 2000);
     let reqs_per = ctx.budget(7, 12);
     for ci in 0..corpora {
